@@ -160,3 +160,24 @@ func TestNagaValidateSurvey(t *testing.T) {
 		}
 	}
 }
+
+// TestDumpGlobals is a development aid: IRX_SRC=<file.wgsl> dumps constants and global expressions.
+func TestDumpGlobals(t *testing.T) {
+	p := os.Getenv("IRX_SRC")
+	if p == "" || os.Getenv("IRX_GLOBALS") == "" {
+		t.Skip("IRX_SRC / IRX_GLOBALS not set")
+	}
+	m, _ := lowerFile(t, p)
+	if m == nil {
+		t.Fatal("does not lower")
+	}
+	for i, c := range m.Constants {
+		fmt.Printf("const %d %q type=%d init=[%d] abstract=%v value=%+v\n", i, c.Name, c.Type, c.Init, c.IsAbstract, c.Value)
+	}
+	for i, g := range m.GlobalVariables {
+		fmt.Printf("global %d %q type=%d space=%d init=%v initExpr=%v\n", i, g.Name, g.Type, g.Space, g.Init, g.InitExpr)
+	}
+	for i, e := range m.GlobalExpressions {
+		fmt.Printf("gexpr [%d] %T%+v\n", i, e.Kind, e.Kind)
+	}
+}
